@@ -275,6 +275,7 @@ DAG_STRATA = [
     "const_nan_inf", "const_neg_zero_d", "const_1d_small", "const_large", "const_int8_double_bool", "const_string",
     "const_string_inf", "const_value_attrs", "names_dotted", "names_digit", "names_keyword", "names_collide", "names_shadow",
     "names_attr", "names_short", "names_dotted_io", "multi_output", "no_inputs", "operator_with_attr", "omitted_output_digit_names",
+    "attr_float_exact", "zero_dim_io",
 ]
 OUTSIDE_STRATA = ["out_sequence", "out_sequence_io", "out_scan", "out_sparse_init", "out_graph_attr"]
 
@@ -698,6 +699,47 @@ def dag_model(stratum, rnd, plain_names=False, plain_consts=False):
         r = gb.add("Mul", [r, gb.add("Squeeze", [iv], [(F, S0)])[0]], [(F, V3)])[0]
         gb.add("Sub", [r, t2], [(F, V3)])
         meta["digit_names"] = {t1[0]: "1", t2[0]: "0", x2[0]: "2"}
+    elif s == "attr_float_exact":
+        # literal FLOAT attributes whose float32 value has no short decimal spelling (tiny, huge, subnormal, 1/3-like): the text
+        # must carry them exactly. Each is observed bit-exactly (Equal against the same value as a tensor) and amplified
+        # (1/v, alpha * x)
+        pool = [1e-12, 5e-8, 1.0 / 3.0, 0.1, 1.1754944e-38, 1e-45, 3.4028235e38, 123456.789, -2.7182817, 16777216.0, 1.2345678e-7,
+                0.999999940395355, 6.1e-5, 2.0 ** -24]
+        vals = [float(np.float32(v)) for v in rnd.sample(pool, 4)]
+        a = gb.fvec()
+        ok = None
+        for k, v in enumerate(vals):
+            c = gb.add("Constant", [], [(F, S0)], value_float=v)[0]
+            t = gb.const(np.array(v, dtype=np.float32), as_init=True)
+            e = gb.add("Equal", [c, t], [(TensorProto.BOOL, S0)])[0]
+            ok = e if ok is None else gb.add("And", [ok, e], [(TensorProto.BOOL, S0)])[0]
+            if k == 0:
+                extra_out.append(gb.add("Div", [gb.const(np.array(1.0, dtype=np.float32)), c], [(F, S0)])[0])
+                extra_out.append(c)
+        extra_out.append(ok)
+        a = gb.add("LeakyRelu", [a], [(F, V3)], alpha=abs(vals[1]))[0]
+        a = gb.add("Elu", [a], [(F, V3)], alpha=abs(vals[2]))[0]
+        extra_out.append(gb.add("ThresholdedRelu", [gb.fvec()], [(F, V3)], alpha=abs(vals[3]) if abs(vals[3]) < 10 else 0.3333333432674408)[0])
+        fl = gb.add("Constant", [], [(F, (2,))], value_floats=[vals[0], vals[1]])[0]
+        extra_out.append(fl)
+        gb.add("Mul", [a, gb.add("ReduceSum", [fl], [(F, S0)], keepdims=0)[0]], [(F, V3)])
+    elif s == "zero_dim_io":
+        # graph inputs / outputs whose declared shape has a dimension of size 0 (empty batch, empty index list)
+        z = ("z", F, (0, 3))
+        e = ("e", I64, (0,))
+        inputs += [z, e]
+        gb.pool += [z, e]
+        a = gb.fvec()
+        ax0 = gb.const(np.array([0], dtype=np.int64))
+        row = gb.add("Unsqueeze", [a, ax0], [(F, (1, 3))])[0]
+        cat = gb.add("Concat", [z, row], [(F, (1, 3))], axis=0)[0]
+        zs = gb.add("ReduceSum", [z, ax0], [(F, V3)], keepdims=0)[0]
+        g0 = gb.add("Gather", [a, e], [(F, (0,))], axis=0)[0]
+        extra_out.append(gb.add("Relu", [z], [(F, (0, 3))])[0])
+        extra_out.append(gb.add("Neg", [g0], [(F, (0,))])[0])
+        extra_out.append(gb.add("Add", [e, e], [(I64, (0,))])[0])
+        t = gb.add("Squeeze", [cat, ax0], [(F, V3)])[0]
+        gb.add("Add", [t, zs], [(F, V3)])
     elif s.startswith("const_"):
         if plain_consts:
             gb.steps(3)
